@@ -53,6 +53,26 @@ def gen_case(rng):
                 noise=noise, chirps=chirps, probe=probe, ops=ops, antenna=antenna, pols=pols)
 
 
+def gen_frac(rng):
+    """ops in eighths of a sample: gaps and targets off the sample grid, small rewinds included"""
+    ops = []
+    clock8 = rng.choice([0, 0, 20, 1001])
+    t0 = clock8
+    for _ in range(rng.randint(2, 7)):
+        r = rng.random()
+        if r < 0.5:
+            n = rng.randint(1, 12); ops.append(["get", n]); clock8 += 8 * n
+        elif r < 0.8:
+            d = rng.choice([1, 3, 5, 7, 9, 29, 123, -1, -3, -5]) if rng.random() < 0.8 else 8 * rng.randint(1, 5)
+            if clock8 + d < 0:
+                d = 3
+            ops.append(["add_time", d]); clock8 += d
+        else:
+            clock8 = rng.choice([0, 4, 13, 8 * rng.randint(0, 50) + rng.randint(0, 7)]); ops.append(["set_time", clock8])
+    ops.append(["get", rng.randint(1, 9)])
+    return dict(sr=float(2 ** rng.randint(4, 16)), t0_8=t0, antenna=rng.random() < 0.4, ops=ops)
+
+
 def g_ops(c):
     out = ["AddNoise"] * len(c["noise"])
     for op in c["ops"]:
@@ -75,7 +95,7 @@ def run(ctx):
     quick = ctx.tier == "quick"
     ctx.rule = ("DataStream and Antenna (1-2 pols) with 0-2 noise sources, 0-2 chirps, real / complex (computed or handing out views of a waveform table) / no custom source, both orientations, "
                 "dyadic (bit-exact) and realistic (toleranced) sample rates, random op lists of get / set_time / add_time / reset_start / "
-                "update_noise; non-trivial = at least two requests; distinct = distinct case")
+                "update_noise; plus op lists whose gaps / targets are odd eighths of a sample (also small rewinds), read back through the probe; non-trivial = at least two requests; distinct = distinct case")
     ctx.assumptions = ["numpy Generator.standard_normal(a) then (b) equals (a+b) (re-checked in this run)",
                        "at realistic sample rates the clock accumulates double round-off: times compared to 1e-9 relative, chirps to 1e-3 of the level",
                        "numpy cos is trusted (both sides call it)"]
@@ -113,6 +133,16 @@ def run(ctx):
         for m in r["mism"]:
             ctx.mismatch(m, small)
     ctx.sample(dict(case=dict((k, cases[-1][k]) for k in ("sr", "t0", "noise", "ops", "antenna", "probe")), model_reqs=cases[-1]["model_reqs"][:3]))
+    # times that are not whole numbers of samples (the model counts whole samples; this part is a direct oracle on the implementation)
+    fcases = [gen_frac(rng) for _ in range(40 if quick else 600)]
+    fres = []
+    for part in C.run_impl_parallel("c10_impl", [dict(mode="frac", cases=ch) for ch in C.chunks(fcases, C.NCPU)]):
+        fres.extend(part["results"])
+    for c, r in zip(fcases, fres):
+        ctx.count(dict(k="frac", c=c), nontrivial=True)
+        ctx.tally("fractional_times", "antenna" if c["antenna"] else "stream")
+        for key, msg in r["fails"]:
+            ctx.impl_violation(key, msg, dict(k="frac", **c))
 
 
 def corpus():
@@ -122,6 +152,12 @@ def corpus():
 
 def replay(ctx, payload):
     c = payload["case"]
+    if c.get("k") == "frac":
+        r = C.run_impl("c10_impl", dict(mode="frac", cases=[c]))["results"][0]
+        for k, m in r["fails"]:
+            print("FAILS: %s: %s" % (k, m))
+        print("replay: %d property failure(s) on %s" % (len(r["fails"]), C.REPO))
+        return 1 if r["fails"] else 0
     v = C.coq_eval(IMPORTS, ["let '(rs, s) := run (fresh %s 0) %s in (rs, clock s)" % (C.gz(c["t0"]), g_ops(c))])[0]
     c["model_reqs"] = [[r[0], r[1], list(r[2])] for r in v[0]]; c["model_clock"] = v[1]
     r = C.run_impl("c10_impl", dict(cases=[c]))["results"][0]
